@@ -41,7 +41,7 @@ func init() {
 		Explain:    "Decides structural necessary conditions of `deterministic marshaling is a function of content`: (1) every iteration over a Go map / reflect map / direct Message.Range / Map.Range in the binary marshal and ordering packages is commutative, sorted before use, single-entry, or control-dependent on determinism being off; (2) the Deterministic option survives every conversion between proto.MarshalOptions, protoiface flags and impl.marshalOptions (so nested re-entries keep it); (3) raw lazy pass-through is taken only when determinism is off; (4) both deterministic map-key comparators order keys by the direct comparison of the key kind's own value.",
 		NotCovered: "the converse direction (identical deterministic bytes imply Equal) and cross-version stability; only iteration-order and option-propagation clauses are decided.",
 		Quick:      all("./proto", "./internal/impl", "./internal/order"),
-		Thorough:   all("./..."),
+		Thorough:   allAndLegacy("./proto", "./internal/impl", "./internal/order"),
 		Run: func(c *Ctx) {
 			c.ruleOrder("R-ORDER", []string{"proto", "internal/impl", "internal/order", "internal/encoding/messageset"}, orderOpts{NondetGuard: nondetGuard, Floor: 6, Exempt: orderExemptCore, Filter: marshalPathFunc})
 			c.ruleOrderArg("R-ORDER-ARG", []string{"proto"}, false, 3)
